@@ -2,7 +2,9 @@
    Model: Model/MMultipart.v (htp_multipart.c, array-level matcher); reference semantics, premises,
    encoder: Spec/SMultipart.v; proofs: Proof/PMultipartSafe.v, Proof/PMultipart.v. *)
 Require Import Htp.Model.Base Htp.Model.MBstr Htp.Model.MMultipart Htp.Spec.SMultipart.
-Require Import Htp.Proof.PMultipartSafe Htp.Proof.PMultipart.
+Require Import Htp.Proof.PMultipartSafe Htp.Proof.PMultipart Htp.Proof.PMultipartRef.
+Require Coq.Strings.String.
+Import Coq.Strings.String.StringSyntax.
 
 (* (a) no out-of-range access, no fuel exhaustion: for every boundary, initial flags and chunk sequence the
    next htp_mpartp_parse call (any data) and htp_mpartp_finalize complete without a Fault outcome *)
@@ -24,6 +26,67 @@ Definition C14_byte_refinement_full : Prop :=
 Theorem C14_full_refuted : ~ C14_byte_refinement_full.
 Proof. exact mp_full_is_false. Qed.
 Print Assumptions C14_full_refuted.
+
+(* (b) chunking independence, under the executable premises mp_premb (Spec/SMultipart.v):
+     mp_bnd_okb        the boundary contains no CR / LF
+     mp_body_okb       the byte-level reference run never hands data to an UNKNOWN part after the last boundary in
+                       data mode (K3) and never completes a delimiter while a part header line is open (K4)
+     mp_no_cr_hazardb  no call starts with CR while the previous call left a CR set aside in STATE_DATA (K1)
+     mp_tail_okb       at the end no non-empty set-aside line is pending without a current part (K2), for the chunked
+                       and for the whole delivery
+   parts, all flags and the fault bit are identical for the chunked and the whole delivery. *)
+Theorem C14_byte_refinement_partial : forall boundary flags chunks,
+  mp_premb boundary flags chunks = true ->
+  mp_obs (mp_finalize (fold_left mp_parse chunks (mp_init_flags boundary flags))) =
+  mp_obs (mp_finalize (mp_parse (mp_init_flags boundary flags) (concat chunks))).
+Proof. exact mp_byte_refinement_partial. Qed.
+Print Assumptions C14_byte_refinement_partial.
+
+(* stronger form: every chunked delivery equals the byte-at-a-time reference semantics mp_aref of the whole body
+   (this is the oracle lib/c14.py evaluates on the implementation) *)
+Theorem C14_chunking_reference : forall boundary flags chunks,
+  mp_bnd_okb boundary = true -> mp_body_okb boundary flags (concat chunks) = true ->
+  mp_no_cr_hazardb boundary flags chunks = true ->
+  mp_tail_okb (fold_left mp_parse chunks (mp_init_flags boundary flags)) = true ->
+  mp_obs (mp_finalize (fold_left mp_parse chunks (mp_init_flags boundary flags))) =
+  mp_aobs (fst (mp_aref boundary flags (concat chunks))).
+Proof. exact mp_chunking_reference. Qed.
+Print Assumptions C14_chunking_reference.
+
+(* the premises are satisfiable by non-trivial inputs: a body with a preamble, a text part whose name has an escaped
+   quote, a file part whose data contains CR, LF, dashes and a prefix of the delimiter, and an epilogue; cut inside the
+   delimiter, inside a header line and right after a CR that is not followed by another CR *)
+Definition C14_ex_body : list bytes :=
+  [mp_str "pre" ++ mp_CRLF ++ mp_str "--B";
+   mp_str "B" ++ mp_CRLF ++ mp_str "Content-Disposition: form-da";
+   mp_str "ta; name=""a" ++ [mp_BSL; mp_QUOTE] ++ mp_str "b""" ++ mp_CRLF ++ mp_CRLF ++ mp_str "v1" ++ [CR];
+   [LF] ++ mp_str "--BB" ++ mp_CRLF ++ mp_str "Content-Disposition: form-data; name=""f""; filename=""x""" ++ mp_CRLF ++
+   mp_str "Content-Type: Text/Plain" ++ mp_CRLF ++ mp_CRLF ++ mp_str "--B" ++ [CR] ++ mp_str "-" ++ [LF] ++ mp_str "--" ++ mp_CRLF ++ mp_str "--B";
+   mp_str "B--" ++ mp_CRLF ++ mp_str "epilogue"].
+Example C14_premises_nonvacuous : mp_premb mp_BB 0 C14_ex_body = true.
+Proof. vm_compute. reflexivity. Qed.
+Example C14_example_result :
+  map mp_report (mp_parts (mp_finalize (fold_left mp_parse C14_ex_body (mp_init mp_BB)))) =
+  [(MpPreamble, None, None, None, mp_str "pre");
+   (MpText, Some (mp_str "a" ++ [mp_QUOTE] ++ mp_str "b"), None, None, mp_str "v1");
+   (MpFile, Some (mp_str "f"), Some (mp_str "x"), Some (mp_str "text/plain"), mp_str "--B" ++ [CR] ++ mp_str "-" ++ [LF] ++ mp_str "--");
+   (MpEpilogue, None, None, None, mp_str "epilogue")].
+Proof. vm_compute. reflexivity. Qed.
+
+(* (d) exactness on the encoder image: NOT proved in general. The full statement stays a definition; it is checked on
+   the implementation by the ground-truth oracle of lib/c14.py and instantiated below on a concrete part list. *)
+Definition C14_exact_full : Prop :=
+  forall b parts, mp_wfb b parts = true ->
+    map mp_report (mp_parts (mp_finalize (mp_parse (mp_init b) (mp_encode b parts)))) = map mp_expect parts.
+Definition C14_ex_parts : list mp_epart :=
+  [MpeText (mp_str "a" ++ [mp_QUOTE; mp_BSL] ++ mp_str "b") (mp_str "--B" ++ mp_CRLF ++ mp_str "-" ++ [CR]);
+   MpeFile (mp_str "f") (mp_str "c:" ++ [mp_BSL] ++ mp_str "x" ++ [mp_QUOTE] ++ mp_str "y") (Some (mp_str "Image/PNG"))
+           ([0; 255; LF] ++ mp_str "--" ++ [CR; CR; LF] ++ mp_str "--B")%N;
+   MpeText [] []].
+Example C14_exact_example :
+  mp_wfb mp_BB C14_ex_parts = true /\
+  map mp_report (mp_parts (mp_finalize (mp_parse (mp_init mp_BB) (mp_encode mp_BB C14_ex_parts)))) = map mp_expect C14_ex_parts.
+Proof. split; vm_compute; reflexivity. Qed.
 
 (* (c) one witness per premise of the chunking theorem: all OTHER premises hold, this one fails, and the
    observation differs between the chunked and the whole delivery *)
@@ -53,3 +116,28 @@ Theorem cd_quoted_scan : forall n rest acc,
   mp_cd_quoted (mp_quote n ++ mp_QUOTE :: rest) acc = Some (rev acc ++ mp_quote n, rest).
 Proof. exact mp_cd_quoted_quote. Qed.
 Print Assumptions cd_unquote_roundtrip.
+
+(* (e) boundary extraction: the general statement is NOT proved; it stays a definition, is instantiated on the
+   headers the five major browsers send (comment in htp_multipart.c), and htp_mpartp_find_boundary is tied to
+   mp_find_boundary by the correspondence run (lib/c14.py, gen_fb). *)
+Definition mp_plain_bchar (c : N) : bool := mp_in 48 57 c || mp_in 97 122 c || mp_in 65 90 c || (c =? mp_DASH)%N.
+Definition find_boundary_spec_full : Prop :=
+  forall b, b <> [] -> length b <= 70 -> forallb mp_plain_bchar b = true ->
+    mp_find_boundary (mp_str "multipart/form-data; boundary=" ++ b) = (c_HTP_OK, Some b, 0%N).
+Example find_boundary_browsers :
+  forallb (fun b => match mp_find_boundary (mp_str "multipart/form-data; boundary=" ++ b) with
+                    | (rc, Some b', fl) => (rc =? c_HTP_OK)%Z && mp_beq b b' && (fl =? 0)%N
+                    | _ => false
+                    end)
+          [mp_str "----WebKitFormBoundaryT4AfwQCOgIxNVwlD"; mp_str "---------------------------21071316483088";
+           mp_str "---------------------------7dd13e11c0452"; mp_str "----------2JL5oh7QWEDwyBllIRc7fh";
+           mp_str "----WebKitFormBoundaryre6zL3b0BelnTY5S"] = true.
+Proof. vm_compute. reflexivity. Qed.
+Example find_boundary_anomalies :
+  (* quoted, unterminated quote, missing, repeated, wrong case, not form-data *)
+  map (fun h => snd (mp_find_boundary (mp_str h)))
+      ["multipart/form-data; boundary=""b b"""; "multipart/form-data; boundary=""bb"; "multipart/form-data; boundary=";
+       "multipart/form-data; boundary=a; boundary=b"; "multipart/form-data; BOUNDARY=a"; "text/plain; boundary=a"]%string
+  = [c_mp_HBOUNDARY_UNUSUAL + c_mp_HBOUNDARY_INVALID; c_mp_HBOUNDARY_UNUSUAL + c_mp_HBOUNDARY_INVALID; c_mp_HBOUNDARY_INVALID;
+     c_mp_HBOUNDARY_INVALID; c_mp_HBOUNDARY_INVALID; c_mp_HBOUNDARY_INVALID]%N.
+Proof. vm_compute. reflexivity. Qed.
